@@ -1292,49 +1292,10 @@ func TestVerifC23(t *testing.T) {
 	c.Set("alphabet_per_slot_with_epoch", len(fullAlpha))
 	c.Set("core_alphabet_per_slot_with_epoch", len(coreAlpha))
 
-	// (1) full alphabet, k <= 3: every arrival permutation (thorough) / identity + one rotating permutation (quick)
+	// (1a) full alphabet, k <= 2: every arrival permutation. The cheap, diverse phases run first so that a run that
+	// is cut short by the time budget on a busy machine has still seen every kind of situation.
 	product(fullAlpha, 1, true, true, true)
 	product(fullAlpha, 2, true, true, true)
-	product(fullAlpha, 3, c.Thorough(), true, true)
-	c.Set("full_alphabet_max_k", 3)
-	// (2) deeper boxes
-	if c.Thorough() {
-		product(fullAlpha, 4, false, true, true)
-		c.Set("full_alphabet_k4", true)
-		product(coreAlpha, 5, false, true, true)
-		c.Set("core_alphabet_max_k", 5)
-	} else {
-		product(coreAlpha, 4, false, true, true)
-		c.Set("core_alphabet_max_k", 4)
-	}
-	// (3) k = 5..6 (7 thorough) restricted to <= 2 distinct (shape, epoch) kinds per batch, full alphabet
-	{
-		A := len(fullAlpha)
-		kmax := mc.Pick(c, 6, 7)
-		parallel(A, true, true, func(a int, wk *c23worker) {
-			for b := a; b < A; b++ {
-				for k := 5; k <= kmax; k++ {
-					slots := make([]c23slot, k)
-					for mask := 0; mask < 1<<k; mask++ {
-						if a == b && mask != 0 {
-							break
-						}
-						for i := range slots {
-							if mask>>i&1 == 0 {
-								slots[i] = fullAlpha[a]
-							} else {
-								slots[i] = fullAlpha[b]
-							}
-						}
-						ps := perms[k]
-						wk.batch(slots, ps[0], P)
-						wk.batch(slots, ps[1+(mask*31+a+b)%(len(ps)-1)], P)
-					}
-				}
-			}
-		})
-		c.Set("two_kind_batches_max_k", kmax)
-	}
 	// (4) writers with fewer capabilities (USO needs a newer kernel than TSO; no offload at all): k <= 2, all perms
 	for _, caps := range [][2]bool{{true, false}, {false, true}, {false, false}} {
 		product(fullAlpha, 1, true, caps[0], caps[1])
@@ -1359,9 +1320,10 @@ func TestVerifC23(t *testing.T) {
 			return -1
 		}
 		var items []long
-		ns := []int{2, 17, 63, 64, 65, 66, 128, 129, 200}
+		ns := []int{2, 17, 63, 64, 65, 66, 128, 129, 254, 300}
 		if c.Thorough() {
-			ns = append(ns, 127, 130, 254, 256, 300)
+			ns = append(ns, 3, 31, 127, 130, 192, 200, 253, 256)
+			sort.Ints(ns)
 		}
 		for _, sh := range []string{"t1.data", "t2.data", "t3.data", "u1.data", "u2.data", "u3.data"} {
 			for _, other := range []string{"", "t1.ack", "u1.short", "x.icmp4", "t2.data"} {
@@ -1431,6 +1393,47 @@ func TestVerifC23(t *testing.T) {
 		c.Set("long_run_max_packets", 2*ns[len(ns)-1])
 	}
 
+	// (3) k = 5..6 (7 thorough) restricted to <= 2 distinct (shape, epoch) kinds per batch, full alphabet
+	{
+		A := len(fullAlpha)
+		kmax := mc.Pick(c, 6, 7)
+		parallel(A, true, true, func(a int, wk *c23worker) {
+			for b := a; b < A; b++ {
+				for k := 5; k <= kmax; k++ {
+					slots := make([]c23slot, k)
+					for mask := 0; mask < 1<<k; mask++ {
+						if a == b && mask != 0 {
+							break
+						}
+						for i := range slots {
+							if mask>>i&1 == 0 {
+								slots[i] = fullAlpha[a]
+							} else {
+								slots[i] = fullAlpha[b]
+							}
+						}
+						ps := perms[k]
+						wk.batch(slots, ps[0], P)
+						wk.batch(slots, ps[1+(mask*31+a+b)%(len(ps)-1)], P)
+					}
+				}
+			}
+		})
+		c.Set("two_kind_batches_max_k", kmax)
+	}
+	// (1) full alphabet, k <= 3: every arrival permutation (thorough) / identity + one rotating permutation (quick)
+	product(fullAlpha, 3, c.Thorough(), true, true)
+	c.Set("full_alphabet_max_k", 3)
+	// (2) deeper boxes
+	if c.Thorough() {
+		product(fullAlpha, 4, false, true, true)
+		c.Set("full_alphabet_k4", true)
+		product(coreAlpha, 5, false, true, true)
+		c.Set("core_alphabet_max_k", 5)
+	} else {
+		product(coreAlpha, 4, false, true, true)
+		c.Set("core_alphabet_max_k", 4)
+	}
 	// ---- evidence
 	c.Set("cpu_seconds", float64(int(c23cpu()*10))/10)
 	c.Set("evaluations", total.batches)
